@@ -6,7 +6,7 @@ proof on the next run and names the constant.
 
 Fail closed: the right-hand sides are evaluated by a tiny evaluator over the Python AST that knows
 literals, names of constants defined earlier in the same scope, `a | b` on sets, frozenset(x), range(..),
-chr(..), one generator-expression shape, itertools.chain(..) and http.client.<NAME>.  Anything else raises
+chr(..), map(chr|ord, ..), one generator-expression shape, itertools.chain(..) and http.client.<NAME>.  Anything else raises
 Unsupported and the check reports a broken tie."""
 import ast
 import http.client
@@ -75,6 +75,13 @@ def _ev(node, env, where):
             v = _ev(args[0], env, where)
             if isinstance(v, int):
                 return chr(v)
+        if name == 'map' and len(args) == 2 and isinstance(args[0], ast.Name) and args[0].id in ('chr', 'ord'):
+            it = _ev(args[1], env, where)
+            if isinstance(it, (list, frozenset, str, bytes)):
+                try:
+                    return [chr(x) if args[0].id == 'chr' else ord(x) for x in it]
+                except (TypeError, ValueError):
+                    bad('map(%s, ...) over %r' % (args[0].id, type(it).__name__))
         if name == 'itertools.chain':
             out = []
             for a in args:
@@ -131,9 +138,25 @@ def constants_of(path, names, cls=None):
     return seen
 
 
+def _threshold(path, node):
+    """an int literal, or a class-level / module-level constant of ItemSession's file that evaluates to one"""
+    if isinstance(node, ast.Constant):
+        return node.value if isinstance(node.value, int) and not isinstance(node.value, bool) else None
+    try:
+        if isinstance(node, ast.Attribute) and isinstance(node.value, ast.Name) and node.value.id in ('self', 'cls', 'ItemSession'):
+            v = constants_of(path, [node.attr], cls='ItemSession')[node.attr]
+        elif isinstance(node, ast.Name):
+            v = constants_of(path, [node.id])[node.id]
+        else:
+            return None
+    except Unsupported:
+        return None
+    return v if isinstance(v, int) and not isinstance(v, bool) else None
+
+
 def child_batch_size(path):
     """the size at which ItemSession.add_url commits its batch: the method must have exactly one statement of the shape
-         if len(self.<batch>) >= <int>:  <...add_many(self.<batch>)>; <self.<batch>.clear()>
+         if len(self.<batch>) >= <int | named int constant>:  <...add_many(self.<batch>)>; <self.<batch>.clear()>
     and no other use of a numeric threshold; anything else is Unsupported"""
     tree = ast.parse(open(path).read(), path)
     cls = [n for n in tree.body if isinstance(n, ast.ClassDef) and n.name == 'ItemSession']
@@ -149,15 +172,14 @@ def child_batch_size(path):
         if isinstance(t, ast.Compare) and len(t.ops) == 1 and isinstance(t.ops[0], ast.GtE) and \
                 isinstance(t.left, ast.Call) and isinstance(t.left.func, ast.Name) and t.left.func.id == 'len' and \
                 len(t.left.args) == 1 and isinstance(t.left.args[0], ast.Attribute) and \
-                isinstance(t.comparators[0], ast.Constant) and isinstance(t.comparators[0].value, int) and \
-                not isinstance(t.comparators[0].value, bool) and not n.orelse:
+                _threshold(path, t.comparators[0]) is not None and not n.orelse:
             calls = [ast.dump(x.value.func) for x in n.body if isinstance(x, ast.Expr) and isinstance(x.value, ast.Call)]
             batch = ast.dump(t.left.args[0])
             want_clear = ast.dump(ast.Attribute(value=t.left.args[0], attr='clear', ctx=ast.Load()))
             args_ok = len(n.body) == 2 and isinstance(n.body[0], ast.Expr) and isinstance(n.body[0].value, ast.Call) and \
                 [ast.dump(a) for a in n.body[0].value.args] == [batch]
             if args_ok and len(calls) == 2 and calls[1] == want_clear and 'add_many' in calls[0]:
-                found.append(t.comparators[0].value)
+                found.append(_threshold(path, t.comparators[0]))
                 continue
         if any(isinstance(x, ast.Call) and isinstance(x.func, ast.Name) and x.func.id == 'len' for x in ast.walk(t)):
             raise Unsupported('%s:%d: a size test of another shape in ItemSession.add_url' % (path, n.lineno))
